@@ -120,6 +120,25 @@ class Pair(typing.NamedTuple):
     b: typing.Any
 
 
+class StrSub(str):
+    """instances of plain subclasses of the primitive types (what numpy scalars, `yarl.URL`-like str subclasses, ORM column
+    values, NewType-by-subclass ids ... are): {"__sub__": ["str", "x"]} in a case"""
+
+
+class IntSub(int):
+    pass
+
+
+class FloatSub(float):
+    pass
+
+
+class BytesSub(bytes):
+    pass
+
+
+SUBS = {"str": StrSub, "int": IntSub, "float": FloatSub, "bytes": BytesSub}
+SUB_NAMES = {c: n for n, c in SUBS.items()}
 ENUMS = {c.__name__: c for c in (Mode, Level, Prio, Kind, Perm, Sw)}
 MODELS = {c.__name__: c for c in (Window, Job, Money)}
 DCS = {c.__name__: c for c in (Point, Span, Day)}
@@ -163,6 +182,8 @@ def dec(v):
                 return uuid.UUID(hex=x)
             if k == "__enum__":
                 return ENUMS[x[0]][x[1]] if isinstance(x[1], str) else ENUMS[x[0]](x[1])
+            if k == "__sub__":
+                return SUBS[x[0]](dec(x[1]))
             if k == "__dec__":
                 return decimal.Decimal(x)
             if k == "__frac__":
@@ -217,6 +238,9 @@ def canon(v, live=None):
         return {"__sched__": live[id(v)]}
     if isinstance(v, enum.Enum):                       # before int / str: IntEnum and str-mixin members are both
         return {"__enum__": [type(v).__name__, v.value if isinstance(v, enum.Flag) else v.name]}
+    if type(v) in SUB_NAMES:
+        base = type(v).__mro__[1]
+        return {"__sub__": [SUB_NAMES[type(v)], canon(base(v), live)]}
     if isinstance(v, bytes):
         return {"__bytes__": v.hex()}
     if isinstance(v, bytearray):
